@@ -8,6 +8,8 @@ scheduler choices (which goroutine moves next); choices that are not enabled are
 -/
 import Anko.Proofs.Chan
 import Anko.Gen.ChanOps
+import Anko.Gen.ChanFlow
+import Anko.Props.ChanFlowTable
 
 namespace Anko.C16
 open Anko.Chan
@@ -163,5 +165,13 @@ def backwards : Nat → List Move
 example : (demoPipe.run (roundRobin 12)).terminal = true ∧ (demoPipe.run (roundRobin 12)).out = [22, 24, 26] := by decide
 example : (demoPipe.run (backwards 12)).terminal = true ∧ (demoPipe.run (backwards 12)).out = [22, 24, 26] := by decide
 example : (demoPipe.run (roundRobin 2)).terminal = false := by decide
+
+/-! ### The channel forms in the source (regenerated: Gen/ChanFlow)
+
+Every leaf statement of invokeChanExpr (receive, send, forward), runChanStmt (the receive statements with one and two targets) and runCloseStmt, with the
+conditions it stands under, is the one written down in Props/ChanFlowTable next to Model/Chan: every blocking operation is a select that watches the
+context, a receive from a closed and drained channel yields nil / false, the element is converted to the channel's element type before the send. Any edit of these functions - also a harmless one - breaks this obligation by name; the check then
+searches model and implementation for a failing input (DESIGN.md 13.3). -/
+theorem channel_forms_are_the_modelled_ones : Gen.ChanFlow.leaves = Tables.chanFlow := by decide +kernel
 
 end Anko.C16
